@@ -48,6 +48,7 @@ BOUNDS["C05"] = {
 }
 BOUNDS["C06"] = {"quick": "the C05 shapes x edits (bit flip per segment, committed message, blinding factor, header, signer message; disclosed committed message in proofs)", "thorough": "as C05 thorough", "outside": "cross-suite replay; wrong signer-message count; index-list swaps; whole-scalar truncation/extension"}
 BOUNDS["C07"] = {"quick": "proof_gen: (L, disclosed) in {(0,{}), (1,{}), (1,{0}), (2,{0})} plus two consecutive generations for (1,{}) and (2,{1}); commit: M in {0,1}; blind_proof_gen: U = 1", "thorough": "L <= 3", "outside": "more than 16 draws per harness; threads; KeyPair::random; statistical properties"}
+BOUNDS["C11"] = {"quick": "constants; DST heads of all queries in sign/verify (L = 1, 2), proof flow (L = 1, 2), issuance (L, M <= 1), blind proof (M = 1); generator units of C10 (count <= 2, five api_id shapes, history pairs)", "thorough": "the thorough shapes of those checks", "outside": "executed cross-suite / cross-interface verification; properties of the real generator points"}
 ASSUMPTIONS = {
     "*": [
         "bls12_381_plus is replaced by a prime-order bilinear group model (elements = discrete logs mod Q, Q in {13,31,251}); its real field/curve/pairing arithmetic and codecs are outside the claim",
@@ -61,6 +62,7 @@ ASSUMPTIONS = {
         "declared counts (n of update_signature) count as input size",
     ],
     "C09": [],
+    "C11": ["random-oracle assumption for the step from disjoint query sets to non-verification", "shared harnesses of C01, C03, C05, C10"],
     "C05": ["programmed random oracle with octet capture", "fixed draw table (feature fixedrand)", "sk = 5; e-answer, challenge and committed-message scalars concrete", "B != identity"],
     "C06": ["as C05", "independent answers for different queries"],
     "C07": ["rand model: thread_rng yields the table values 3,5,7,11,13,17,19,23,29,31,37,41,43,47,53,59 in order"],
